@@ -11,7 +11,7 @@ package centrifuge
 // broker operations run at *gates*: before each client request, just before each broker read the server
 // performs, and just after it (still inside the read call) - i.e. between any two reads of the protocol.
 //
-//   sc size=N sttl=MS kttl=MS page=L slim=L tlim=N cto=MS flt=0|1 rec=none|live|stream g=<ops>/<ops>/… off=<ops> live=<ops>
+//   sc size=N sttl=MS kttl=MS page=L slim=L tlim=N cto=MS flt=0|1 obs=0|1 rec=none|live|stream g=<ops>/<ops>/… off=<ops> live=<ops>
 //     ops = comma separated: Pk (publish key k), Rk (remove key k), A<ms> (advance virtual time), C (clear), - (nothing)
 //     g    gate scripts consumed in order of gate occurrence (missing = nothing)
 //     off  operations while the client is unsubscribed (between first session and recovery)
@@ -199,13 +199,44 @@ type verifC22Scn struct {
 	snapLen    int
 	snapTop    uint64
 	flt        bool
+	fltVal     string // tag value the current client's filter admits ("1" for the protocol client)
+	noGates    bool   // observers subscribe without consuming gate scripts / emitting tokens
+	mute       bool
 }
 
-func (s *verifC22Scn) tok(t string) { s.toks = append(s.toks, t) }
+// verifC22Obs is an additional live map subscriber of the same channel with its own tags filter.
+type verifC22Obs struct {
+	client  *Client
+	closeFn ClientCloseFunc
+	tr      *verifC22Transport
+	cursor  int
+	cmdID   uint32
+	ref     *verifC22Ref
+	flt     bool
+	fltVal  string
+}
+
+// with runs f with the observer installed as the scenario's current client (tokens muted).
+func (s *verifC22Scn) with(o *verifC22Obs, f func()) {
+	c, tr, cur, id, flt, fv, ng, mu := s.client, s.tr, s.cursor, s.cmdID, s.flt, s.fltVal, s.noGates, s.mute
+	s.client, s.tr, s.cursor, s.cmdID, s.flt, s.fltVal, s.noGates, s.mute = o.client, o.tr, o.cursor, o.cmdID, o.flt, o.fltVal, true, true
+	f()
+	o.cursor, o.cmdID = s.cursor, s.cmdID
+	s.client, s.tr, s.cursor, s.cmdID, s.flt, s.fltVal, s.noGates, s.mute = c, tr, cur, id, flt, fv, ng, mu
+}
+
+func (s *verifC22Scn) tok(t string) {
+	if !s.mute {
+		s.toks = append(s.toks, t)
+	}
+}
 
 func (s *verifC22Scn) ep(e string) string {
 	if e == "" {
 		return "e0"
+	}
+	if s.mute {
+		return "e?" // observers do not take part in the first-seen numbering
 	}
 	if i, ok := s.epochs[e]; ok {
 		return "e" + strconv.Itoa(i)
@@ -303,7 +334,7 @@ func (s *verifC22Scn) runOp(op string) {
 }
 
 func (s *verifC22Scn) gate() {
-	if len(s.gates) == 0 {
+	if s.noGates || len(s.gates) == 0 {
 		return
 	}
 	g := s.gates[0]
@@ -501,7 +532,7 @@ func (s *verifC22Scn) brokerMap() (map[string]int, uint64, string) {
 		return out, 0, ""
 	}
 	for k, e := range c.state {
-		if s.flt && verifC22Tags(k)["t"] != "1" {
+		if s.flt && verifC22Tags(k)["t"] != s.fltVal {
 			continue
 		}
 		var d struct {
@@ -536,7 +567,7 @@ func (s *verifC22Scn) send(cl *verifC22Ref, req *protocol.SubscribeRequest) {
 func (s *verifC22Scn) session(cl *verifC22Ref, page, slim int32, recMode string) {
 	var tf *protocol.FilterNode
 	if s.flt {
-		tf = &protocol.FilterNode{Op: "", Key: "t", Cmp: "eq", Val: "1"}
+		tf = &protocol.FilterNode{Op: "", Key: "t", Cmp: "eq", Val: s.fltVal}
 	}
 	switch recMode {
 	case "":
@@ -657,7 +688,7 @@ func verifC22Scenario(t *testing.T, line string) (res string) {
 			out = "harness-error new-broker"
 			return
 		}
-		s := &verifC22Scn{node: node, broker: mb, epochs: map[string]int{}, gates: gates, flt: flt}
+		s := &verifC22Scn{node: node, broker: mb, epochs: map[string]int{}, gates: gates, flt: flt, fltVal: "1"}
 		node.SetMapBroker(&verifC22Broker{MemoryMapBroker: mb, s: s})
 		node.OnConnecting(func(ctx context.Context, e ConnectEvent) (ConnectReply, error) {
 			return ConnectReply{Credentials: &Credentials{UserID: "u"}}, nil
@@ -705,6 +736,49 @@ func verifC22Scenario(t *testing.T, line string) (res string) {
 		time.Sleep(500 * time.Microsecond)
 		synctest.Wait()
 
+		// optional observers: live subscribers of the same channel whose tags filters differ from the
+		// protocol client's (and from each other's); they subscribe while the channel is still empty
+		var observers []*verifC22Obs
+		if kv["obs"] == "1" {
+			for _, spec := range []struct {
+				flt bool
+				val string
+			}{{true, "0"}, {false, ""}, {true, "1"}} {
+				otr := &verifC22Transport{}
+				oc, ocl, err := NewClient(ctx, node, otr)
+				if err != nil {
+					continue
+				}
+				o := &verifC22Obs{client: oc, closeFn: ocl, tr: otr, cmdID: 1, ref: &verifC22Ref{m: map[string]int{}}, flt: spec.flt, fltVal: spec.val}
+				oc.HandleCommand(&protocol.Command{Id: 1, Connect: &protocol.ConnectRequest{}}, 0)
+				synctest.Wait()
+				otr.mu.Lock()
+				o.cursor = len(otr.frames)
+				otr.mu.Unlock()
+				s.with(o, func() { s.session(o.ref, 100, 100, "") })
+				observers = append(observers, o)
+			}
+		}
+		obsState := func() []string {
+			var out []string
+			for _, o := range observers {
+				var bm map[string]int
+				s.with(o, func() {
+					s.collect(0, o.ref)
+					bm, _, _ = s.brokerMap()
+				})
+				switch {
+				case o.ref.told:
+					out = append(out, "told")
+				case verifC22Map(bm) == verifC22Map(o.ref.m):
+					out = append(out, "eq")
+				default:
+					out = append(out, "ne:"+verifC22Map(o.ref.m)+"/"+verifC22Map(bm))
+				}
+			}
+			return out
+		}
+
 		cl := &verifC22Ref{m: map[string]int{}}
 		s.session(cl, int32(page), int32(slim), "")
 		sessions := 1
@@ -743,9 +817,10 @@ func verifC22Scenario(t *testing.T, line string) (res string) {
 		told1 := cl.told
 		fin := fmt.Sprintf("| fin sess=%d phase=%s told=%d q1=%s cm=%s bm=%s pos=%d:%s top=%d:%s rec=%s", sessions, cl.phase, verifC22B(told1), q1,
 			verifC22Map(cl.m), verifC22Map(bm), cl.off, s.ep(cl.ep), top, s.ep(bep), verifC22Str(cl.lastRec))
+		obs1 := obsState()
 		// second observation: let the periodic position check run (virtual 100 s); key TTLs fire as well
 		s.tok("|")
-		if !cl.told {
+		if !cl.told || len(observers) > 0 {
 			s.runOp("A100000")
 			s.collect(0, cl)
 		}
@@ -755,12 +830,29 @@ func verifC22Scenario(t *testing.T, line string) (res string) {
 			q2 = "eq"
 		}
 		fin += fmt.Sprintf(" told2=%d q2=%s", verifC22B(cl.told), q2)
+		if len(observers) > 0 {
+			// a live observer must hold the broker state restricted to its own filter once traffic stopped,
+			// or have been told (at the latest by the periodic position check)
+			obs2 := obsState()
+			for i := range observers {
+				v := "ok"
+				if obs1[i] != "eq" && obs1[i] != "told" && obs2[i] != "told" {
+					v = "bad:" + obs1[i]
+				} else if obs2[i] != "eq" && obs2[i] != "told" {
+					v = "bad2:" + obs2[i]
+				}
+				fin += fmt.Sprintf(" o%d=%s", i+1, v)
+			}
+		}
 		if s.herr != "" {
 			out = "harness-error " + s.herr
 		} else {
 			out = strings.Join(s.toks, " ") + " " + fin
 		}
 		_ = closeFn()
+		for _, o := range observers {
+			_ = o.closeFn()
+		}
 		finish()
 	})
 	return out
